@@ -205,9 +205,13 @@ fn translate_select_pipeline(
 
     ctx.query.pre_projection = false;
 
+    // (the bound of the last take, for the errors about the composed range)
+    let take_span = (takes.last())
+        .and_then(|t| t.range.start.as_ref().or(t.range.end.as_ref()))
+        .and_then(|e| e.span);
     let ranges = takes.into_iter().map(|x| x.range).collect();
-    let take = range_of_ranges(ranges)?;
-    let too_large = || Error::new_simple("take range is too large");
+    let take = range_of_ranges(ranges).with_span_fallback(take_span)?;
+    let too_large = || Error::new_simple("take range is too large").with_span(take_span);
     let offset = match take.start {
         Some(s) => s.checked_sub(1).ok_or_else(too_large)?,
         None => 0,
